@@ -119,7 +119,21 @@ pub struct Runner { pub fs: String, pub label: String, pub disk: Box<dyn DiskFS>
 fn norm_path(fs: &str,p: &str) -> String {
     if fs.starts_with("cpm") {
         let up = p.to_uppercase();
-        return match up.split_once(':') { Some((u,n)) => format!("{}/{}",u,n), None => format!("0/{}",up) };
+        // the user number may be spelled 0, 00, +0 ...: one user area; more than one colon is no name at all
+        if up.matches(':').count()>1 { return format!("<invalid>{}",up); }
+        return match up.split_once(':') {
+            Some((u,n)) => match u.parse::<u8>() { Ok(v) => format!("{}/{}",v,n), Err(_) => format!("<invalid>{}",up) },
+            None => format!("0/{}",up)
+        };
+    }
+    if fs=="fat" {
+        // trailing blanks of the base name or the extension are the padding of the 8+3 fields: such a spelling names nothing
+        let up = p.to_uppercase();
+        for seg in up.split('/') {
+            let (b,e) = match seg.split_once('.') { Some((b,e)) => (b,e), None => (seg,"") };
+            if seg!="." && seg!=".." && (b.ends_with(' ') || e.ends_with(' ')) { return format!("<invalid>{}",up); }
+        }
+        return up;
     }
     p.to_uppercase()
 }
@@ -289,6 +303,10 @@ pub fn run(toks: &[&str]) -> String {
         let f: Vec<&str> = op.split('~').collect();
         let free_before = r.free().unwrap_or(0);
         let mut touched: Option<String> = None;
+        // C19, last sentence: changing protection or type alters nothing but the file's own directory entry.  On raw sector images
+        // the bytes of the image are the bytes of the disk: take them before the operation (the buffers a2kit keeps are flushed by get_img)
+        let raw_container = label.starts_with("do:") || label.starts_with("po:") || label.starts_with("img:") || label.starts_with("d13:");
+        let bytes_before: Option<Vec<u8>> = if raw_container && matches!(f[0],"L"|"U"|"T") { Some(r.disk.get_img().to_bytes()) } else { None };
         let outcome = catch_unwind(AssertUnwindSafe(|| -> (String,Option<String>) {
             match f[0] {
                 "P" => {
@@ -402,6 +420,16 @@ pub fn run(toks: &[&str]) -> String {
         };
         r.bump(&format!("{}-{}",f[0],res));
         if let Some(e) = oracle { raise!(format!("{} [step {} op {}]",e,step,op)); }
+        if let Some(before) = bytes_before {
+            let after = r.disk.get_img().to_bytes();
+            let diff: Vec<usize> = (0..before.len().min(after.len())).filter(|i| before[*i]!=after[*i]).collect();
+            // one entry is at most 39 bytes (ProDOS); a CP/M file has one entry per extent and a ProDOS directory header may be touched too
+            let extents = if fs.starts_with("cpm") { 1 + touched.as_ref().and_then(|k| r.shadow.get(k)).map(|sh| sh.chunks.keys().max().map(|m| m/8).unwrap_or(0)).unwrap_or(0) } else { 1 };
+            if before.len()!=after.len() || diff.len() > 16*extents + 24 {
+                raise!(format!("C19 {} of {} changed {} bytes of the image (first at offset {}), more than the file's own directory entry [step {} op {} res {}]",
+                    f[0],touched.clone().unwrap_or_default(),diff.len(),diff.first().cloned().unwrap_or(0),step,op,res));
+            }
+        }
         // after lock/unlock/retype the touched file's metadata legitimately changed: refresh its reference read
         if matches!(f[0],"L"|"U"|"T"|"R") && res=="ok" {
             if let Some(k) = &touched { if r.shadow.get(k).map(|sh| !sh.is_dir).unwrap_or(false) {
